@@ -52,6 +52,8 @@ type Query struct {
 	Prefer  string        // "z3-new", "cvc5", "z3" — first solver tried
 	Timeout time.Duration // per solver attempt
 	Only    string        // if set, use only this solver
+	Both    bool          // wait for both solvers (up to Timeout) before accepting an unsat
+	Grace   time.Duration // how long an unsat waits for a contradicting sat (default 500ms)
 }
 
 type proc struct {
@@ -73,7 +75,7 @@ func (p *proc) isDead() bool {
 var solverCmd = map[string][]string{
 	"z3-new": {"z3-new", "-in"},
 	"z3":     {"z3", "-in"},
-	"cvc5":   {"cvc5", "--incremental", "--strings-exp", "--produce-models", "--lang=smt2"},
+	"cvc5":   {"cvc5", "--incremental", "--strings-exp", "--produce-models", "--lang=smt2", "--no-strings-regexp-inclusion"},
 }
 
 func startProc(kind string) (*proc, error) {
@@ -154,6 +156,7 @@ func (p *proc) readUntil(marker string, deadline time.Time) ([]string, bool) {
 // Stats are global counters over all queries.
 type Stats struct {
 	Queries, SatN, UnsatN, UnknownN int64
+	Conflicts, SingleUnsat          int64
 	mu                              sync.Mutex
 	SolverSeconds                   map[string]float64
 	BySolver                        map[string]int64
@@ -168,6 +171,9 @@ func (s *Stats) add(r Result, perSolver map[string]float64) {
 		atomic.AddInt64(&s.SatN, 1)
 	case Unsat:
 		atomic.AddInt64(&s.UnsatN, 1)
+		if strings.Contains(r.Note, " only ") {
+			atomic.AddInt64(&s.SingleUnsat, 1)
+		}
 	default:
 		atomic.AddInt64(&s.UnknownN, 1)
 	}
@@ -349,27 +355,80 @@ func (w *Worker) Check(q *Query) Result {
 	}
 	got := 0
 	decided := false
+	stopOthers := func(except string) {
+		w.pmu.Lock()
+		for _, k := range kinds {
+			if k != except {
+				if p, ok := w.procs[k]; ok && p.busy {
+					p.kill()
+				}
+			}
+		}
+		w.pmu.Unlock()
+	}
+	var grace <-chan time.Time
+	var pendingUnsat *Result
+loop:
 	for got < len(kinds) {
-		a := <-ch
+		var a ans
+		select {
+		case a = <-ch:
+		case <-grace:
+			// nobody contradicted the unsat within the grace period
+			last = *pendingUnsat
+			last.Note = "unsat from " + last.Solver + " only (other solver still running after grace period)"
+			decided = true
+			stopOthers(last.Solver)
+			grace = nil
+			continue loop
+		}
 		got++
 		per[a.kind] += a.r.Seconds
 		tried = append(tried, fmt.Sprintf("%s:%s:%.2fs", a.kind, a.r.Status, a.r.Seconds))
 		if decided {
 			continue
 		}
-		last = a.r
-		if a.r.Status != Unknown {
+		switch a.r.Status {
+		case Sat:
+			// a model is always checked natively by the caller, so sat wins
+			if pendingUnsat != nil {
+				a.r.Note = "CONFLICT: " + pendingUnsat.Solver + " answered unsat"
+				atomic.AddInt64(&GlobalStats.Conflicts, 1)
+			}
+			last = a.r
 			decided = true
-			// stop the losers
-			w.pmu.Lock()
-			for _, k := range kinds {
-				if k != a.kind {
-					if p, ok := w.procs[k]; ok && p.busy {
-						p.kill()
+			stopOthers(a.kind)
+		case Unsat:
+			if pendingUnsat != nil || len(kinds) == 1 || got == len(kinds) {
+				last = a.r
+				if pendingUnsat == nil && len(kinds) > 1 {
+					last.Note = "unsat from " + a.kind + " only (other solver gave no answer)"
+				}
+				decided = true
+				stopOthers(a.kind)
+			} else {
+				r := a.r
+				pendingUnsat = &r
+				g := q.Grace
+				if g == 0 {
+					g = 500 * time.Millisecond
+				}
+				if q.Both {
+					g = timeout
+					if q.Grace > 0 {
+						g = q.Grace
 					}
 				}
+				grace = time.After(g)
 			}
-			w.pmu.Unlock()
+		default:
+			if pendingUnsat != nil && got == len(kinds) {
+				last = *pendingUnsat
+				last.Note = "unsat from " + last.Solver + " only (other solver: " + a.r.Note + ")"
+				decided = true
+			} else {
+				last = a.r
+			}
 		}
 	}
 	last.Tried = tried
